@@ -1,7 +1,7 @@
 package main
 
 import (
-	"bytes"
+	"os"
 	"fmt"
 	"go/ast"
 	"go/parser"
@@ -99,10 +99,11 @@ type evalObs struct {
 	err   bool
 	line  string
 	panic string
+	limited bool // the run was cut off by the harness's output limit (a non-terminating program)
 }
 
 func evalBoth(src string, optimize bool) (o evalObs) {
-	var out bytes.Buffer
+	var out capBuf
 	vm := g.New(g.WithStdout(&out))
 	func() {
 		defer func() {
@@ -129,11 +130,12 @@ func evalBoth(src string, optimize bool) (o evalObs) {
 		o.rets = strings.Join(p, ",")
 	}()
 	o.out = out.String()
+	o.limited = out.limited
 	return
 }
 
 func loadBoth(src string, optimize bool) (o evalObs) {
-	var out bytes.Buffer
+	var out capBuf
 	vm := g.New(g.WithStdout(&out))
 	fs := fstest.MapFS{"main/main.go": &fstest.MapFile{Data: []byte(src)}}
 	func() {
@@ -155,6 +157,7 @@ func loadBoth(src string, optimize bool) (o evalObs) {
 		}
 	}()
 	o.out = out.String()
+	o.limited = out.limited
 	return
 }
 
@@ -268,7 +271,15 @@ func cmdC02Diff(seed uint64, n int, dir string) {
 			src, prof = genFaultProgram(r), "fault"
 		}
 		st.add("generated "+prof, fmt.Sprintf("%s program %d (%d lines)", prof, c, strings.Count(src, "\n")))
-		cmpObs(st, "generated-"+prof, src, loadBoth(src, false), loadBoth(src, true))
+		if tr := os.Getenv("VERIF_TRACE"); tr != "" {
+			os.WriteFile(tr, []byte(src), 0o644) // the program being run, for post-mortems of a killed harness
+		}
+		oa, ob := loadBoth(src, false), loadBoth(src, true)
+		if oa.limited && ob.limited {
+			st.Histogram["generated program cut off by the output limit in both modes (non-terminating; skipped)"]++
+			continue
+		}
+		cmpObs(st, "generated-"+prof, src, oa, ob)
 	}
 	st.write(dir + "/C02_diff_stats.json")
 }
